@@ -233,7 +233,11 @@ class Interp:
                             r = align_up(base.p, a)
                             if r is not None and self.parity is not None:
                                 r = r.subst("P", self.parity)
-                            return Val(r, base.esz) if r is not None else None
+                            if r is None:
+                                # the residue of a known polynomial depends on an index symbol: the rounded value is not a
+                                # polynomial at all; keep it as an opaque atom so that the comparison reports it
+                                return Val(Poly.sym("align%d(%s)" % (a, base.p)), base.esz)
+                            return Val(r, base.esz)
                 return None
             a, b = self.ev(t["l"], st), self.ev(t["r"], st)
             if a is None or b is None:
